@@ -252,7 +252,7 @@ pub fn run(id: &str, data: &[u8]) -> Option<String> {
 		"C11" => {
 			let f = c.u8();
 			let initial = c.text();
-			judge::<c11::C11>(c11::Case { fam: if f & 1 == 1 { Fam::Iri } else { Fam::Uri }, full: f & 2 != 0, initial, ops: aops(&mut c, 16) })
+			{ let o = aops(&mut c, 16); let d: Vec<u8> = o.iter().enumerate().map(|(i, _)| if (f as usize + i) % 3 == 0 { (i % 4) as u8 + 1 } else { 0 }).collect(); judge::<c11::C11>(c11::Case { fam: if f & 1 == 1 { Fam::Iri } else { Fam::Uri }, full: f & 2 != 0, initial, ops: o, derive: d }) }
 		}
 		"C12" => {
 			let fam = c.fam();
